@@ -197,17 +197,17 @@ fn direct_table(ns: Vec<Node>) -> RoutingTable {
 //@ cap: 2400
 //@ standins: vcoll
 //@ desc: RoutingTable::add into a built one-bucket table of 2 entries satisfying Inv: afterwards no entry has the table's id, ids are pairwise distinct, the per-IP rule holds pairwise, size() = number of entries, is_empty() agrees, nodes() yields exactly the entries, every entry sits in the bucket of its distance; a fresh acceptable node is added
-//@ bounds: table id all-zero, entries in distance class 160 with ids [0x80|b0,b1,b2,..,r] and IPs from {8.8.8.8, 1.2.3.4} (secure and insecure mixes); 2 entries + 1 incoming (incoming may be the table's own id class or any distance class 153..160); unwind 21; P: at most 4 distinct (ip, r) arguments; RoutingTableIterator::next 163
+//@ bounds: table id all-zero, entries in distance class 160 with ids [0x80|b0,b1,b2,..,r] and IPs from {8.8.8.8, 1.2.3.4} (secure and insecure mixes); 2 entries + 1 incoming (incoming may be the table's own id class or any distance class 153..160); unwind 21; RoutingTableIterator::next 163
 //@ inv: no self id; ids pairwise distinct; entry in bucket distance(self,id); per IP <= 1 insecure entry and no two secure entries with equal 21-bit prefix
-//@ stubs: std::time::Instant::now -> symbolic whole-second clock; id::id_prefix_ipv4 (BEP42 CRC32C) -> uninterpreted function P(ip, r) (ghost table; the real CRC is bound by C19.O3 / C11.O1)
+//@ stubs: std::time::Instant::now -> symbolic whole-second clock; Node::is_secure -> uninterpreted predicate of (id[19] & 3, ip[0] & 1), 8 pre-drawn bits, private addresses exempt as in the real code (BEP42 validity itself: C19.O3/O4 and C11.O1 with the real CRC32C)
 //@ functions: RoutingTable::{add,size,is_empty,nodes}, KBucket::add, Node::already_exists, Id::distance
 //@ unwindset: RoutingTableIterator = 163
 #[kani::proof]
 #[kani::stub(std::time::Instant::now, clock::now)]
-#[kani::stub(crate::common::id::id_prefix_ipv4, crate::verif_env::ufp::prefix)]
+#[kani::stub(crate::common::node::Node::is_secure, crate::verif_env::ufs::is_secure)]
 #[kani::unwind(21)]
 fn c12_o3_table_add_step() {
-    crate::verif_env::ufp::arm(kani::env());
+    crate::verif_env::ufs::arm(kani::any());
     clock::set(0);
     let n1 = any_public_node_160();
     let n2 = any_public_node_160();
@@ -277,15 +277,15 @@ fn c12_o3_table_add_step() {
 //@ standins: vcoll
 //@ also: C12
 //@ desc: refresh on contact: the table holds X (added at t0); at t1 the call handle_response makes for an expected reply -- routing_table.add(Node::new(X.id, X.addr)) -- leaves exactly one entry for X whose last_seen is t1 (so a peer that keeps answering is never stale); with a second unrelated entry present too
-//@ bounds: X with symbolic id bytes and IP from {8.8.8.8 (id may be secure or not), 10.0.0.7 (private)}; a second entry with a different IP; t0 <= t1 symbolic (<= 2^20 s); unwind 21; P: at most 4 distinct (ip, r) arguments
-//@ stubs: std::time::Instant::now -> symbolic whole-second clock; id::id_prefix_ipv4 (BEP42 CRC32C) -> uninterpreted function P(ip, r) (ghost table; the real CRC is bound by C19.O3 / C11.O1)
+//@ bounds: X with symbolic id bytes and IP from {8.8.8.8 (id may be secure or not), 10.0.0.7 (private)}; a second entry with a different IP; t0 <= t1 symbolic (<= 2^20 s); unwind 21
+//@ stubs: std::time::Instant::now -> symbolic whole-second clock; Node::is_secure -> uninterpreted predicate of (id[19] & 3, ip[0] & 1), 8 pre-drawn bits, private addresses exempt as in the real code (BEP42 validity itself: C19.O3/O4 and C11.O1 with the real CRC32C)
 //@ functions: RoutingTable::add, KBucket::add, Node::already_exists, Node::is_stale
 #[kani::proof]
 #[kani::stub(std::time::Instant::now, clock::now)]
-#[kani::stub(crate::common::id::id_prefix_ipv4, crate::verif_env::ufp::prefix)]
+#[kani::stub(crate::common::node::Node::is_secure, crate::verif_env::ufs::is_secure)]
 #[kani::unwind(21)]
 fn c14_o1_refresh_on_contact() {
-    crate::verif_env::ufp::arm(kani::env());
+    crate::verif_env::ufs::arm(kani::any());
     let t0: u64 = kani::any();
     let dt: u64 = kani::any();
     kani::assume(t0 < (1 << 20) && dt < (1 << 20));
@@ -331,16 +331,16 @@ fn c14_o1_refresh_on_contact() {
 //@ standins: vcoll
 //@ also: C20
 //@ desc: remove(id) deletes exactly the entry with that id (nothing else, no effect for unknown ids); reset_id(new) re-buckets every entry: afterwards each entry sits in the bucket of its distance to the new id, ids are distinct, nothing with the new id remains, and the table's lookup statistics (sample counters and sums, which mirror the cached lookups) are untouched
-//@ bounds: 2-entry table (private IPs, symbolic id byte 1), symbolic removal id byte, new id [b0,0..] symbolic first byte; unwind 21; P: at most 4 distinct (ip, r) arguments; RoutingTableIterator::next 163
-//@ stubs: std::time::Instant::now -> symbolic whole-second clock; id::id_prefix_ipv4 (BEP42 CRC32C) -> uninterpreted function P(ip, r) (ghost table; the real CRC is bound by C19.O3 / C11.O1)
+//@ bounds: 2-entry table (private IPs, symbolic id byte 1), symbolic removal id byte, new id [b0,0..] symbolic first byte; unwind 21; RoutingTableIterator::next 163
+//@ stubs: std::time::Instant::now -> symbolic whole-second clock; Node::is_secure -> uninterpreted predicate of (id[19] & 3, ip[0] & 1), 8 pre-drawn bits, private addresses exempt as in the real code (BEP42 validity itself: C19.O3/O4 and C11.O1 with the real CRC32C)
 //@ functions: RoutingTable::{remove,reset_id,add,to_owned_nodes}, KBucket::remove
 //@ unwindset: RoutingTableIterator = 163
 #[kani::proof]
 #[kani::stub(std::time::Instant::now, clock::now)]
-#[kani::stub(crate::common::id::id_prefix_ipv4, crate::verif_env::ufp::prefix)]
+#[kani::stub(crate::common::node::Node::is_secure, crate::verif_env::ufs::is_secure)]
 #[kani::unwind(21)]
 fn c12_o4_remove_and_rekey() {
-    crate::verif_env::ufp::arm(kani::env());
+    crate::verif_env::ufs::arm(kani::any());
     clock::set(0);
     let n1 = any_private_node_160();
     let n2 = any_private_node_160();
@@ -406,15 +406,15 @@ fn c12_o4_remove_and_rekey() {
 //@ cap: 2700
 //@ standins: vcoll
 //@ desc: RoutingTable::closest(t) on a built 3-entry table: result has no duplicates, every element is a table entry, length = min(20, size) = 3, and it is ordered secure-first then XOR distance to t (the brute-force order)
-//@ bounds: 3 entries in one bucket (ids [0x80|b0,b1,b2,..,r], IPs 8.8.8.8 / 1.2.3.4 / 10.0.0.x), symbolic target bytes 0,1,19; unwind 21; P: at most 4 distinct (ip, r) arguments
-//@ stubs: std::time::Instant::now -> symbolic whole-second clock; id::id_prefix_ipv4 (BEP42 CRC32C) -> uninterpreted function P(ip, r) (ghost table; the real CRC is bound by C19.O3 / C11.O1)
+//@ bounds: 3 entries in one bucket (ids [0x80|b0,b1,b2,..,r], IPs 8.8.8.8 / 1.2.3.4 / 10.0.0.x), symbolic target bytes 0,1,19; unwind 21
+//@ stubs: std::time::Instant::now -> symbolic whole-second clock; Node::is_secure -> uninterpreted predicate of (id[19] & 3, ip[0] & 1), 8 pre-drawn bits, private addresses exempt as in the real code (BEP42 validity itself: C19.O3/O4 and C11.O1 with the real CRC32C)
 //@ functions: RoutingTable::closest, ClosestNodes::add
 #[kani::proof]
 #[kani::stub(std::time::Instant::now, clock::now)]
-#[kani::stub(crate::common::id::id_prefix_ipv4, crate::verif_env::ufp::prefix)]
+#[kani::stub(crate::common::node::Node::is_secure, crate::verif_env::ufs::is_secure)]
 #[kani::unwind(21)]
 fn c11_o3_table_closest() {
-    crate::verif_env::ufp::arm(kani::env());
+    crate::verif_env::ufs::arm(kani::any());
     clock::set(0);
     let n1 = any_public_node_160();
     let n2 = any_public_node_160();
